@@ -331,6 +331,20 @@ func c15Guarded(l *core.Ledger, row fieldRule, acc []fieldAccess, lockState func
 		ok := sx.Holds(held, row.lock, write)
 		if ok {
 			l.OK("C15-L1", k, sx.PosOf(a.at), "under "+row.lock)
+			// the lock protects the elements as well as the header: a slice or map value
+			// loaded under the lock is read (indexed, ranged over, handed on) under it too
+			if ld, isLoad := a.at.(*ssa.UnOp); isLoad && a.kind == "read" {
+				for i, use := range elementUses(ld, 0) {
+					uh := ls.HeldAt(sx.NodeOf(use))
+					_, isStore := use.(*ssa.Store)
+					ek := fmt.Sprintf("%s@%s/elements#%d", key, fnKey(a.fn), i)
+					if sx.Holds(uh, row.lock, isStore) {
+						l.OK("C15-L1", ek, sx.PosOf(use), "elements used under "+row.lock)
+					} else {
+						l.Bad("C15-L1", ek, sx.PosOf(use), fmt.Sprintf("the header of %s is read under %s, but its elements are used after the lock is released (held: %s): the slice header is a snapshot, the backing array is not - another goroutine re-sorts or appends in place under the lock while this one reads the elements", key, row.lock, sx.HeldString(uh)))
+					}
+				}
+			}
 			continue
 		}
 		what := "read"
@@ -346,6 +360,65 @@ func c15Guarded(l *core.Ledger, row fieldRule, acc []fieldAccess, lockState func
 	if n == 0 {
 		l.OK("C15-L1", key, token.NoPos, "no access outside construction")
 	}
+}
+
+// elementUses lists the instructions that touch the elements of the slice or
+// map v (not just its header): index and range reads, element stores, and
+// calls that are handed the value. len and cap read the header only.
+func elementUses(v ssa.Value, depth int) []ssa.Instruction {
+	switch v.Type().Underlying().(type) {
+	case *types.Slice, *types.Map:
+	default:
+		return nil
+	}
+	if depth > 4 || v.Referrers() == nil {
+		return nil
+	}
+	var out []ssa.Instruction
+	for _, ref := range *v.Referrers() {
+		switch u := ref.(type) {
+		case *ssa.IndexAddr:
+			if u.X != v {
+				continue
+			}
+			for _, r2 := range *u.Referrers() {
+				switch r2.(type) {
+				case *ssa.UnOp, *ssa.Store:
+					out = append(out, r2)
+				}
+			}
+		case *ssa.Lookup:
+			if u.X == v {
+				out = append(out, u)
+			}
+		case *ssa.MapUpdate:
+			if u.Map == v {
+				out = append(out, u)
+			}
+		case *ssa.Range:
+			for _, r2 := range *u.Referrers() {
+				if nx, ok := r2.(*ssa.Next); ok {
+					out = append(out, nx)
+				}
+			}
+		case *ssa.Slice:
+			if u.X == v {
+				out = append(out, elementUses(u, depth+1)...)
+			}
+		case *ssa.Phi:
+			out = append(out, elementUses(u, depth+1)...)
+		case *ssa.ChangeType:
+			out = append(out, elementUses(u, depth+1)...)
+		case *ssa.Call:
+			if b, ok := u.Call.Value.(*ssa.Builtin); ok && (b.Name() == "len" || b.Name() == "cap") {
+				continue
+			}
+			out = append(out, u)
+		case *ssa.Go, *ssa.Defer:
+			out = append(out, ref)
+		}
+	}
+	return out
 }
 
 func c15Once(l *core.Ledger, r *rt, row fieldRule, acc []fieldAccess, key string) {
@@ -485,6 +558,38 @@ func c15Escape(l *core.Ledger, r *rt) {
 // except the codec's decode into the message it was handed.
 func c15Request(l *core.Ledger, r *rt) {
 	var bad []string
+	// functions reached from Codec.Unmarshal and not from Codec.Marshal (the two
+	// methods of gRPC's encoding.Codec interface)
+	decodeOnly := map[*ssa.Function]bool{}
+	{
+		reach := func(name string) map[*ssa.Function]bool {
+			out := map[*ssa.Function]bool{}
+			var walk func(f *ssa.Function, d int)
+			walk = func(f *ssa.Function, d int) {
+				if f == nil || out[f] || d > 6 || !inRepo(f) {
+					return
+				}
+				out[f] = true
+				sx.AllInstrs(f, func(_ sx.Node, in ssa.Instruction) {
+					if cc := sx.CallOf(in); cc != nil {
+						walk(cc.StaticCallee(), d+1)
+					}
+				})
+			}
+			for _, f := range allFuncs(l.Prog, r.pkg) {
+				if f.Name() == name && f.Signature.Recv() != nil && isNamed(f.Signature.Recv().Type(), core.RootModule, "Codec") {
+					walk(f, 0)
+				}
+			}
+			return out
+		}
+		enc := reach("Marshal")
+		for f := range reach("Unmarshal") {
+			if !enc[f] {
+				decodeOnly[f] = true
+			}
+		}
+	}
 	for _, typ := range []string{"request", "Message"} {
 		tn, _ := r.pkg.Types.Scope().Lookup(typ).(*types.TypeName)
 		if tn == nil {
@@ -496,8 +601,10 @@ func c15Request(l *core.Ledger, r *rt) {
 				if a.kind != "write" || a.fresh {
 					continue
 				}
-				// codec: gorumsUnmarshal writes msg.Message of its parameter
-				if a.fn.Signature.Recv() != nil && isNamed(a.fn.Signature.Recv().Type(), core.RootModule, "Codec") {
+				// codec: the decode path writes the message it was handed (gRPC passes RecvMsg's
+				// fresh target); the encode path is handed messages that other goroutines hold
+				// (the payload of a call is shared by the senders of all its nodes)
+				if decodeOnly[a.fn] {
 					continue
 				}
 				// a local variable of struct type (sender's `var req request`)
@@ -872,6 +979,32 @@ func c15Globals(l *core.Ledger, r *rt, roots []goRoot, lockState func(*ssa.Funct
 			continue
 		}
 		ok, how := c15Discipline(l, r, roots, lockState, uses, func(h sx.Held) bool { return strings.Contains(h.Lock, "global(") })
+		if ok && strings.HasPrefix(how, "all uses hold ") {
+			// a variable that is modified under a lock is read under that lock: a read that
+			// skips it (copy-on-write without an atomic pointer, double-checked lookup) races
+			// with the assignment
+			lock := strings.TrimPrefix(how, "all uses hold ")
+			for _, f := range allFuncs(l.Prog, r.pkg) {
+				f := f
+				sx.AllInstrs(f, func(_ sx.Node, in ssa.Instruction) {
+					ld, isLoad := in.(*ssa.UnOp)
+					if !isLoad || ld.Op != token.MUL || ld.X != ssa.Value(g) || !ok {
+						return
+					}
+					holds := false
+					for _, h := range lockState(f).HeldAt(sx.NodeOf(in)) {
+						if h.Lock == lock {
+							holds = true
+						}
+					}
+					if !holds && len(c15RootsOf(roots, f)) > 0 {
+						ok = false
+						how = fmt.Sprintf("a read in %s that does not hold %s", fnKey(f), lock)
+						uses = append(uses, sharedUse{f, in, "read without " + lock})
+					}
+				})
+			}
+		}
 		var where []string
 		for _, u := range uses {
 			where = append(where, fnKey(u.fn)+": "+u.by)
